@@ -1,5 +1,5 @@
 # replay of a bounded stand-in violation (C19)
 import sys
-print('clique.swap([0], edges=[], node_select=[np.float64(0.5), np.float64(2.5), np.float64(1.5)]) can return [(1,), (2,)], documented rule allows [(1,)]')
+print('clique.search([], edges=[], iterations=2, node_select=[np.float64(0.5), np.float64(2.5), np.float64(1.5)]) can return [(0,), (1,)], the documented phases allow [(1,)]')
 print('REPLAY-VIOLATION (re-run native/c19_apps.py to reproduce)')
 sys.exit(1)
